@@ -585,8 +585,9 @@ registered a connection for the client's CONNECT, then the two are `Established`
 settings allow* — `handshake_leaves_established`, from the server's half (`server_half_after_connect`: what `process_connect`
 registers) and the client's half (`client_half_after_handshake`: `handshake()`, `process_syn`, `process_connect` never touch the
 receiver role or the ciphers, and the send counter of substream 0 moves from 1 to 2 exactly when the SYN/ACK is accepted). The one
-hypothesis left is that the two ends hold equal substream keys and cipher setting: without credentials both hold the default key;
-with credentials it is the ticket's session key reaching both ends (C05 / C16). Besides the theorem, the kernel checks closed
+hypothesis left is that the two ends hold equal substream keys and cipher setting: with credentials that is the ticket's session key
+reaching both ends (C05 / C16); without credentials it is proved too (`handshake_leaves_established_without_credentials`: the
+handshake never touches keys or cipher setting, both ends keep the default key). Besides the theorem, the kernel checks closed
 configurations (`handshakeRun`) and the L1 driver evaluates `establishedB` on the model endpoints after every replayed REAL
 handshake (`est`). Not covered by the theorem: retransmitted SYN / CONNECT packets and duplicate answers (the straight-line
 handshake only; the probe and the replays see the others). -/
@@ -612,7 +613,7 @@ theorem client_half_after_handshake (env : Env) (version : Option Nat) (u chk si
     (sub : Nat) (hsub : sub ≤ env.s.maxSubstreamId) :
     let c4 := ((((Conn.new env version u chk sid la lp lt ra rp rt).handshake env t0 creds).c.handle env t1 synAck).c.handle env t2 conAck).c.resumeHandshake t3 |>.c
     c4.state = STATE_CONNECTED → ClientReady c4 sub :=
-  client_half_established env version u chk sid la lp lt ra rp rt t0 t1 t2 t3 creds synAck conAck hs hc sub hsub
+  fun h => (client_half_established env version u chk sid la lp lt ra rp rt t0 t1 t2 t3 creds synAck conAck hs hc sub hsub h).1
 
 open Nx.L1 Nx.Prudp in
 /-- **the handshake leaves the two endpoints `Established` in both directions** (hence, by `C01_duplex_established`, every duplex
@@ -629,8 +630,30 @@ theorem handshake_leaves_established (envC envS : Env) (version : Option Nat) (u
     Established sub (if sub = 0 then 2 else 1) c4 cs ∧ Established sub 1 cs c4 := by
   intro c4 hconn hk hon
   exact established_of_halves sub c4 cs
-    (client_half_established envC version u chk sid la lp lt ra rp rt t0 t1 t2 t3 creds synAck conAck hs hc sub hsubC hconn)
+    (client_half_established envC version u chk sid la lp lt ra rp rt t0 t1 t2 t3 creds synAck conAck hs hc sub hsubC hconn).1
     (server_half_established envS now rnd true s con addr hnew cs hreg sub hsubS) hk hon
+
+open Nx.L1 Nx.Prudp in
+/-- **… and without credentials nothing is left to assume**: a client that logs in with no credentials, a server without a ticket
+    key, the same transport setting at both ends — the handshake never touches keys or cipher setting, both ends hold the default key
+    under the transport's cipher setting, so a completed handshake leaves them `Established` in both directions on every substream -/
+theorem handshake_leaves_established_without_credentials (envC envS : Env) (version : Option Nat) (u chk sid : Nat) (la : Addr) (lp lt : Nat) (ra : Addr) (rp rt : Nat)
+    (t0 t1 t2 t3 : Time) (synAck conAck : Packet) (hs : synAck.type = TYPE_SYN) (hc : conAck.type = TYPE_CONNECT)
+    (now : Time) (rnd : Rnd) (s : ServerStream) (con : Packet) (addr : Addr) (hkey : s.key = none)
+    (htr : envS.s.transport = envC.s.transport)
+    (hnew : clientLookup (addr, con.sourcePort, con.sourceType) s.clients = none) (cs : Conn)
+    (hreg : clientLookup (addr, con.sourcePort, con.sourceType) (s.processConnect envS now rnd true con addr).s.clients = some cs)
+    (sub : Nat) (hsubC : sub ≤ envC.s.maxSubstreamId) (hsubS : sub ≤ envS.s.maxSubstreamId) :
+    let c4 := ((((Conn.new envC version u chk sid la lp lt ra rp rt).handshake envC t0 none).c.handle envC t1 synAck).c.handle envC t2 conAck).c.resumeHandshake t3 |>.c
+    c4.state = STATE_CONNECTED → Established sub (if sub = 0 then 2 else 1) c4 cs ∧ Established sub 1 cs c4 := by
+  intro c4 hconn
+  obtain ⟨hcr, hck, hcon⟩ := client_half_established envC version u chk sid la lp lt ra rp rt t0 t1 t2 t3 none synAck conAck hs hc sub hsubC hconn
+  obtain ⟨hson, hsk⟩ := server_ciphers envS now rnd true s con addr hnew cs hreg
+  refine established_of_halves sub c4 cs hcr (server_half_established envS now rnd true s con addr hnew cs hreg sub hsubS) ?_ ?_
+  · rw [hck, hsk hkey]
+    simp only [clientKeys, List.getElem?_map]
+    rw [replicate_get _ _ _ (by omega), replicate_get _ _ _ (by omega)]
+  · rw [hson, hcon, htr]
 
 /-! non-vacuity of `ClientReady`: the client the modelled handshake produces has every field of it (substreams 0 and 1) -/
 open Nx.L1 Nx.Prudp in
